@@ -28,6 +28,9 @@ type Caps struct {
 	DECRPMUnknownZero bool // answer DECRQM for unknown modes with status 0
 	OSC52             bool
 	Clipboard         string
+	// ColorDigits: hex digits per channel in colour replies; 0 or 4 = the
+	// usual doubled form (rgb:1a1a/2b2b/3c3c), 2 = rgb:1a/2b/3c (X11 allows 1-4)
+	ColorDigits int
 }
 
 // Bits lists the boolean capabilities in a fixed order for enumeration.
